@@ -99,8 +99,27 @@ struct Inner
 	}
 };
 
+// Targets of fixed shape (their elements are fields: what is not loaded keeps its value) for the typed-corruption check
+struct Shapes
+{
+	std::tuple<int32_t, std::string, bool, int64_t> tup{};
+	std::array<int32_t, 4> arr{};
+	std::vector<std::tuple<int32_t, std::string>> vt;
+	int32_t tail = 0;
+	bool tailLoaded = false;
+	template <class A>
+	void Serialize(A& ar)
+	{
+		using BitSerializer::KeyValue;
+		ar << KeyValue("tup", tup);
+		ar << KeyValue("arr", arr);
+		ar << KeyValue("vt", vt);
+		ar << KeyValue("tail", tail, Spy{ &tailLoaded });
+	}
+};
+
 // members of Zoo in Serialize order (bit positions of Zoo::saveMask)
-static const char* const kZooOrder[] = { "base", "color", "emap", "dur", "durMs", "tp", "tpMs", "vec", "vbool", "deq", "lst", "fwd", "arr", "val", "que", "stk", "pq", "set", "mset", "uset", "umset", "map", "imap", "mmap", "umap", "ummap", "mapOnlyExist", "mapUpdate", "mapUpdateOpt", "opt", "optStr", "uptr", "sptr", "uobj", "bits", "tup", "pr", "atom", "s", "s16", "s32", "ws", "vv", "mv", "vo", "vobj", "bin", "rows", "voObj", "vuObj", "vsObj", "vtup" };
+static const char* const kZooOrder[] = { "base", "color", "emap", "dur", "durMs", "tp", "tpMs", "vec", "vbool", "deq", "lst", "fwd", "arr", "val", "que", "stk", "pq", "set", "mset", "uset", "umset", "map", "imap", "mmap", "umap", "ummap", "mapOnlyExist", "mapUpdate", "mapUpdateOpt", "opt", "optStr", "uptr", "sptr", "uobj", "bits", "tup", "pr", "atom", "s", "s16", "s32", "ws", "vv", "mv", "vo", "vobj", "bin", "rows", "voObj", "vuObj", "vsObj", "vtup", "optDur", "uDur" };
 
 struct ZooBase
 {
@@ -162,6 +181,12 @@ struct Zoo : ZooBase
 	std::vector<std::unique_ptr<Inner>> vuObj;
 	std::list<std::shared_ptr<Inner>> vsObj;
 	std::vector<std::tuple<int32_t, std::string>> vtup;
+	std::string computed;   // loaded from the member the save side computes
+	// wrappers around chrono values (text archives convert them from ISO-8601 text by policy)
+	std::optional<std::chrono::seconds> optDur;
+	std::unique_ptr<std::chrono::seconds> uDur;
+	bool altChronoDoc = false;                 // saving only: the members are written as plain texts (valid, out of range, not ISO at all)
+	std::optional<std::string> optDurAlt, uDurAlt;
 	std::vector<std::tuple<std::optional<int32_t>, std::optional<std::string>>> vtupAlt;   // saving only (altSetDoc): null components
 	// the CSV root can be any sequence container of rows (csvRoot: 0 vector, 1 list, 2 deque, 3 forward_list)
 	int csvRoot = 0;
@@ -252,6 +277,11 @@ struct Zoo : ZooBase
 		F(KeyValue("vuObj", vuObj));
 		F(KeyValue("vsObj", vsObj));
 		if (!A::IsLoading() && altSetDoc) { F(KeyValue("vtup", vtupAlt)); } else { F(KeyValue("vtup", vtup)); }
+		if (!A::IsLoading() && altChronoDoc) { F(KeyValue("optDur", optDurAlt)); F(KeyValue("uDur", uDurAlt)); }
+		else { F(KeyValue("optDur", optDur)); F(KeyValue("uDur", uDur)); }
+		// a value computed while saving: the KeyValue owns a temporary (loading reads it into a plain member)
+		if constexpr (A::IsSaving()) { if (saveMask == ~0ull) ar << KeyValue("computed", baseName + "/computed-while-saving/" + s); }
+		else { ar << KeyValue("computed", computed); }
 	}
 };
 
